@@ -112,6 +112,46 @@ CLAIMED = {
              "specs/RecycleTrace.tla.",
         design_ref="DESIGN.md 4 C18, 9",
         technique="TLA+ model checking of the recycling rule + TLC trace validation of in-process worker loops and real gunicorn processes"),
+    "C14": dict(
+        text="TLC checks specs/Upgrade.tla (generations of masters over one set of listening descriptors, the pid files and a "
+             "unix socket file; USR2 / stop signals to either master interleaved with boot, SIGCHLD reaping and promotion) "
+             "for tcp and unix binds against ListenRefcountPositive, SocketFileUsable, SocketFileRemovedAtLast, Pid2ThenRename, "
+             "AtMostTwoGenerationsAlive, RollbackRestores, PromotedOwnsConfiguredName. Real two-master histories (plain upgrade, "
+             "rollback, second USR2 while pending, rollback then upgrade again, chained upgrade, USR2 to the un-promoted master) "
+             "run from the working tree under a background client load; pid files, socket file, process table and refused "
+             "connections at quiescent checkpoints are validated by TLC against specs/UpgradeTrace.tla, whose ops drive the "
+             "Upgrade actions (clauses on observed values = verdict; difference from the model state = drift).",
+        design_ref="DESIGN.md 4 C14, 9",
+        technique="TLA+ model checking of the two-master protocol + TLC trace validation of real upgrade histories"),
+    "C16": dict(
+        text="TLC checks specs/ConfigMerge.tla (effective value of a setting after the source steps in the code's order, 7 "
+             "setting kinds x mentions per source x which config-file namings exist: complete product) against "
+             "MostAuthoritativeWins, UnmentionedUntouched, InvalidStopsStartup, ValidStarts; TLC emits the cases, each is "
+             "instantiated for every setting in KNOWN_SETTINGS with values per validator family and loaded through a real "
+             "WSGIApplication (argv, GUNICORN_CMD_ARGS, generated config files, framework defaults); TLC judges every load "
+             "(specs/ConfigMergeTrace.tla).",
+        design_ref="DESIGN.md 4 C16, 9",
+        technique="TLA+ decision-table model checked on the full product; TLC-emitted cases replayed into the real config loader for all 93 settings; TLC judges outcomes",
+        note="Transcribed-function use of the technique (DESIGN.md 6). "),
+    "C17": dict(
+        text="TLC checks specs/Pidfile.tla (create / validate / unlink / rename / reload at system-call grain, two instances, a "
+             "foreign writer, owner death, a crash before every system call of create; operation-atomic configuration with "
+             "<= 6-7 operations) against RefusesLiveForeign, TakesOverStale, NeverPartialContent, UnlinkOnlyOwn, RenameOnlyOwn, "
+             "NeverDeletesForeign, RenameMoves; TLC behaviours, enumerated short histories and seeded random histories are "
+             "replayed on the real Pidfile class over a scratch directory (real file-system calls, simulated process table, crash "
+             "and short-write injection at every call) and judged call by call by TLC (specs/PidfileTrace.tla).",
+        design_ref="DESIGN.md 4 C17, 9",
+        technique="TLA+ model checking at system-call grain with crash injection + TLC trace validation of histories replayed on the real Pidfile class"),
+    "C20": dict(
+        text="TLC checks specs/Privs.tla (kernel credential rules for setuid/setgid/initgroups and the worker start path: "
+             "heartbeat-file chown, fork, lookup, initgroups, setgid, setuid, load, first heartbeat) on the complete product "
+             "(master identity x user/group spelling x target x initgroups x passwd entry) against WorkerCredsExact, "
+             "DropBeforeLoad, MasterKeepsIdentity, HeartbeatWritable, PermittedDropSucceeds; every case runs on the real "
+             "Worker.init_process / set_owner_process over a recording fake kernel and in real forked processes as root "
+             "(www-data, nobody, uid without passwd entry), plus real gunicorn servers (initial, respawned and post-HUP "
+             "workers read from /proc); TLC judges each record (specs/PrivsTrace.tla).",
+        design_ref="DESIGN.md 4 C20, 9",
+        technique="TLA+ model of kernel credential semantics checked on the full product + TLC trace validation of real credential drops"),
 }
 
 NOT_YET = {
